@@ -170,10 +170,52 @@ impl WalManager {
             checkpoint_epoch: Mutex::new(None),
         };
 
+        // Recovery stops reading a file at its first torn or corrupt record, so
+        // anything appended behind such bytes would never be replayed: cut them
+        // off before the file is opened for appending.
+        Self::truncate_invalid_tail(&manager.log_path(max_sequence))?;
+
         // Open or create the active log
         manager.ensure_active_log()?;
 
         Ok(manager)
+    }
+
+    /// Truncates a log file to the end of its last valid record.
+    fn truncate_invalid_tail(path: &Path) -> Result<()> {
+        let Ok(data) = fs::read(path) else {
+            return Ok(()); // no such file yet
+        };
+        let mut valid = 0usize;
+        while let Some(prefix) = data.get(valid..valid + 4) {
+            let len = u32::from_le_bytes([prefix[0], prefix[1], prefix[2], prefix[3]]) as usize;
+            let end = valid + 4 + len + 4;
+            if end > data.len() {
+                break;
+            }
+            let payload = &data[valid + 4..end - 4];
+            let stored = u32::from_le_bytes([
+                data[end - 4],
+                data[end - 3],
+                data[end - 2],
+                data[end - 1],
+            ]);
+            let decodes = bincode::serde::decode_from_slice::<WalRecord, _>(
+                payload,
+                bincode::config::standard(),
+            )
+            .is_ok();
+            if crc32fast::hash(payload) != stored || !decodes {
+                break;
+            }
+            valid = end;
+        }
+        if valid < data.len() {
+            let file = OpenOptions::new().write(true).open(path)?;
+            file.set_len(valid as u64)?;
+            file.sync_all()?;
+        }
+        Ok(())
     }
 
     /// Logs a record to the WAL.
